@@ -356,10 +356,12 @@ package errbase
 //@   assigns heap state.entries
 //@   ensures len(self.entries) == old(len(self.entries))
 //@   ensures[C06] wfEntries(old(self.entries)) ==> wfEntries(self.entries)
+//@   ensures[C03] rsEntries(old(self.entries)) ==> rsEntries(self.entries)
 //@   ensures[C09] forall k int :: len(self.entries) - newEntries <= k && k < len(self.entries) ==> self.entries[k].elideShort
 //@   loop 1: invariant 0 <= i && len(self.entries) == old(len(self.entries))
 //@           invariant[C09] forall k int :: len(self.entries) - i <= k && k < len(self.entries) ==> self.entries[k].elideShort
 //@           invariant[C06] wfEntries(old(self.entries)) ==> wfEntries(self.entries)
+//@           invariant[C03] rsEntries(old(self.entries)) ==> rsEntries(self.entries)
 
 //@ method (*state).collectEntry
 //@   props C05 C09 C03 C06
@@ -367,6 +369,7 @@ package errbase
 //@   ensures result.redactable ==> (bufIsRedactable && self.redactableOutput)
 //@   ensures result.depth == (withDepth ? depth : 0)
 //@   assumes[C06] wfEntry(result)
+//@   assumes[C03] rsEntry(result)
 
 //@ method (*state).formatRecursive
 //@   props C05 C09 C03 C13 C06
@@ -380,8 +383,11 @@ package errbase
 //@   ensures[C09] len(specialCases) == 0 && !typeis(err, SafeFormatter) && !typeis(err, Formatter) && !typeis(err, fmt.Formatter) && len(causes(err)) > 0 ==> (forall k int :: old(len(self.entries)) <= k && k < len(self.entries) - 1 ==> self.entries[k].elideShort)
 //@   requires[C06] wfEntries(self.entries)
 //@   ensures[C06] wfEntries(self.entries)
+//@   requires[C03] rsEntries(self.entries)
+//@   ensures[C03] rsEntries(self.entries)
 //@   loop 1: invariant numChildren >= 0 && len(self.entries) == old(len(self.entries)) + numChildren
 //@           invariant[C06] wfEntries(self.entries)
+//@           invariant[C03] rsEntries(self.entries)
 //@           invariant[C09] numChildren == (cause1(err) != nil ? treeSize(cause1(err)) : 0) + sizeTo(causes(err), $n)
 
 
@@ -396,32 +402,48 @@ package errbase
 // functions that copy entries into the final buffer.
 //@ spec func wfEntry(e formatEntry) bool = e.redactable ==> (wfR(strOf(e.head)) && wfR(strOf(e.details)))
 //@ spec func wfEntries(es []formatEntry) bool = forall i int :: 0 <= i && i < len(es) ==> wfEntry(es[i])
+// C03 twin of the same discipline: an entry flagged redactable keeps its PII inside markers
+// (ASSUMED at collectEntry like wfEntry: the buffer was filled through redact's printer), every
+// other entry is escaped and enclosed when copied, so the final buffer handed to redact as
+// RedactableBytes keeps all PII inside markers
+//@ spec func rsEntry(e formatEntry) bool = e.redactable ==> (rsafe(strOf(e.head)) && rsafe(strOf(e.details)))
+//@ spec func rsEntries(es []formatEntry) bool = forall i int :: 0 <= i && i < len(es) ==> rsEntry(es[i])
 
 //@ method (*state).printEntry
-//@   props C06 C05
+//@   props C06 C05 C03
 //@   requires[C06] wfEntry(entry)
+//@   requires[C03] rsEntry(entry)
 //@   assigns heap state.finalBuf
 //@   ensures[C06] self.redactableOutput && wfR(bbContent(old(self.finalBuf))) ==> wfR(bbContent(self.finalBuf))
+//@   ensures[C03] self.redactableOutput && rsafe(bbContent(old(self.finalBuf))) ==> rsafe(bbContent(self.finalBuf))
 
 //@ method (*state).formatSingleLineOutput
-//@   props C06 C05
+//@   props C06 C05 C03
 //@   requires[C06] wfEntries(self.entries)
+//@   requires[C03] rsEntries(self.entries)
 //@   assigns heap state.finalBuf
 //@   ensures[C06] self.redactableOutput && wfR(bbContent(old(self.finalBuf))) ==> wfR(bbContent(self.finalBuf))
+//@   ensures[C03] self.redactableOutput && rsafe(bbContent(old(self.finalBuf))) ==> rsafe(bbContent(self.finalBuf))
 //@   loop 1: invariant 0 - 1 <= i && i < len(self.entries)
 //@           invariant[C06] self.redactableOutput && wfR(bbContent(old(self.finalBuf))) ==> wfR(bbContent(self.finalBuf))
+//@           invariant[C03] self.redactableOutput && rsafe(bbContent(old(self.finalBuf))) ==> rsafe(bbContent(self.finalBuf))
 
 //@ method (*state).formatEntries
-//@   props C06 C05 C09
+//@   props C06 C05 C09 C03
 //@   requires len(self.entries) >= 1
 //@   requires[C06] wfEntries(self.entries)
+//@   requires[C03] rsEntries(self.entries)
 //@   assigns heap state.finalBuf
 //@   ensures[C06] self.redactableOutput && wfR(bbContent(old(self.finalBuf))) ==> wfR(bbContent(self.finalBuf))
+//@   ensures[C03] self.redactableOutput && rsafe(bbContent(old(self.finalBuf))) ==> rsafe(bbContent(self.finalBuf))
 //@   loop 1: invariant 0 - 1 <= i && i < len(self.entries) - 1
 //@           invariant[C06] self.redactableOutput && wfR(bbContent(old(self.finalBuf))) ==> wfR(bbContent(self.finalBuf))
+//@           invariant[C03] self.redactableOutput && rsafe(bbContent(old(self.finalBuf))) ==> rsafe(bbContent(self.finalBuf))
 //@   loop 2: invariant[C06] self.redactableOutput && wfR(bbContent(old(self.finalBuf))) ==> wfR(bbContent(self.finalBuf))
+//@           invariant[C03] self.redactableOutput && rsafe(bbContent(old(self.finalBuf))) ==> rsafe(bbContent(self.finalBuf))
 //@   loop 3: invariant 0 - 1 <= i && i < len(self.entries)
 //@           invariant[C06] self.redactableOutput && wfR(bbContent(old(self.finalBuf))) ==> wfR(bbContent(self.finalBuf))
+//@           invariant[C03] self.redactableOutput && rsafe(bbContent(old(self.finalBuf))) ==> rsafe(bbContent(self.finalBuf))
 
 
 
@@ -430,7 +452,7 @@ package errbase
 // fmt.State as raw bytes (redact escapes and encloses them); every other case goes through
 // finishDisplay with a buffer that is a well-formed redactable string in redactable mode.
 //@ func formatErrorInternal
-//@   props C06 C09 C05
+//@   props C06 C09 C05 C03
 //@   requires s != nil && err != nil
 //@   requires redactableOutput ==> typeis(s, redact.SafePrinter)
 //@   ensures[C09] !(verb == 'v' && stFlag(s, '+') && !stFlag(s, '#')) && !(!redactableOutput && verb == 'v' && stFlag(s, '#')) && !(verb == 's' || (verb == 'v' && !stFlag(s, '#')) || (!redactableOutput && (verb == 'x' || verb == 'X' || verb == 'q'))) ==> $out == old($out) + "%!" + charStr(verb) + "(" + typeString(typeof(err)) + ")"
@@ -438,10 +460,11 @@ package errbase
 // finishDisplay (C09: width / precision / verb handling; C06: what is handed to redact as
 // RedactableBytes is the well-formed buffer). $out is the text written to the caller's fmt.State.
 //@ method (*state).finishDisplay
-//@   props C06 C09 C05
+//@   props C06 C09 C05 C03
 //@   requires self.State != nil
 //@   requires self.redactableOutput ==> typeis(self.State, redact.SafePrinter)
 //@   requires[C06] self.redactableOutput ==> wfR(bbContent(self.finalBuf))
+//@   requires[C03] self.redactableOutput ==> rsafe(bbContent(self.finalBuf))
 //@   assigns heap state.finalBuf
 //@   ensures[C09] !self.redactableOutput && (verb == 'v' || verb == 's') && !(stHasWidth(self.State) && stWidth(self.State) > 0) && !stHasPrec(self.State) ==> $out == old($out) + bbContent(old(self.finalBuf))
 //@   ensures[C09] !self.redactableOutput && !((verb == 'v' || verb == 's') && !(stHasWidth(self.State) && stWidth(self.State) > 0) && !stHasPrec(self.State)) ==> $out == old($out) + sprintf1(mkFormat(ifaceOf(self), verb), ifaceOf(bbContent(old(self.finalBuf))))
